@@ -172,6 +172,7 @@ func freePort() int {
 
 func (rn *runner) script() (string, int) {
 	f := rn.fifo
+	rdy := filepath.Join(rn.dir, "ready") // the script creates it once it is set up (traps, forked child)
 	port := 0
 	var s string
 	switch rn.sc.Kind {
@@ -189,17 +190,17 @@ func (rn *runner) script() (string, int) {
 	default:
 		switch rn.sc.Beh {
 		case "exit0":
-			s = fmt.Sprintf("read x < %s; exit 0", f)
+			s = fmt.Sprintf(": > %s; read x < %s; exit 0", rdy, f)
 		case "exit3":
-			s = fmt.Sprintf("read x < %s; exit 3", f)
+			s = fmt.Sprintf(": > %s; read x < %s; exit 3", rdy, f)
 		case "fork": // a grandchild in the same process group that outlives the shell
-			s = fmt.Sprintf("/bin/sleep 600 & read x < %s; exit 0", f)
+			s = fmt.Sprintf("/bin/sleep 600 & : > %s; read x < %s; exit 0", rdy, f)
 		case "ignore":
-			s = fmt.Sprintf("trap '' TERM INT; while :; do read x < %s; done", f)
+			s = fmt.Sprintf("trap '' TERM INT; : > %s; while :; do read x < %s; done", rdy, f)
 		case "crash":
 			s = "exec /nonexistent/verif-no-such-command"
 		default: // sleep: runs until killed
-			s = fmt.Sprintf("while :; do read x < %s; done", f)
+			s = fmt.Sprintf(": > %s; while :; do read x < %s; done", rdy, f)
 		}
 	}
 	return s, port
@@ -481,6 +482,16 @@ func (rn *runner) step(st Step) {
 		default:
 			r := st.R
 			rn.awaitNext("resp "+r, 4*time.Second, func(v *view) int { return v.nResp[r] })
+			if (r == "START" || r == "Trigger") && !ctl && rn.sc.Beh != "crash" {
+				// "running" means the child is set up (it has forked what it forks), not merely exec'ed
+				dl := time.Now().Add(3 * time.Second)
+				for time.Now().Before(dl) {
+					if _, err := os.Stat(filepath.Join(rn.dir, "ready")); err == nil {
+						break
+					}
+					time.Sleep(time.Millisecond)
+				}
+			}
 		}
 	case "Reap":
 		rn.awaitNext("BASIC_TASK_TERMINATED", 4*time.Second, func(v *view) int { return v.nBTT })
